@@ -5,6 +5,10 @@ under /verif/seeded/<Cxx-N>/ ."""
 import sys, os, subprocess, json, re, shutil
 sid = sys.argv[1]
 src = f'/tmp/mutout/{sid}'
+if '--src' in sys.argv:
+    i = sys.argv.index('--src')
+    src = sys.argv[i+1]
+    del sys.argv[i:i+2]
 if not os.path.isdir(src):
     src = f'/verif/seeded/{sid}'
 prop = sid.split('-')[0]
